@@ -52,6 +52,7 @@ LEVEL = {
 }
 LEVEL["decided"] += " (R01.12) fourteen tools (takewhile, dropwhile, filterfalse, filter, pairwise, batched, accumulate, starmap, enumerate, map, compress, chain, cycle, iter with sentinel) and the two inner generators of zip as finite tables by abstract evaluation — the items yielded and the way the generator ends (C05/C06 also compare items taken and calls), 373 cells, compared with the stdlib tool executed on the same symbols; (R01.13) the library's scope managers around the sources never suppress an exception."
 LEVEL["decided"] += " (R01.14) tee: every history of next / close operations on 2-3 children over sources of up to 3 items gives each child the items of the source in order (object model with generator frames, compared with itertools.tee after every operation); (R01.15) merge as a table of 548 cells (1-3 sources, every sorted ranking with ties, key, reverse) against heapq.merge; (R01.16/R01.17) awaitify never wraps a plain library function, and no helper updates a user's value in place."
+LEVEL["decided"] += ' (R01.18) the adapter that turns an argument into an iterator accepts what the stdlib accepts (R03.2/R03.3, shared); (R01.19) fault cells, items only: for every use of a source / callable that either side makes, with that use raising, the same items come out and the tool ends the same way.'
 LEVEL["technique"] += '; tee histories and the merge table by abstract evaluation over an object model with generator frames, compared with the executed stdlib'
 
 PASS_THROUGH = ["builtins.zip", "builtins._zip_inner", "builtins._zip_inner_strict", "builtins.filter",
@@ -88,7 +89,7 @@ def run(ctx) -> None:
     r01_10(ctx)
     from . import lockstep
     lockstep.zip_longest_table(ctx, "R01.11", consumption=False)
-    ctx.floor("zip_longest_cells_decided", 100)
+    ctx.floor("zip_longest_cells_decided", 118)
     # "ends the same way": the scopes the tools run their sources in never swallow what the source,
     # the predicate or the function raised (C06's rule on library __aexit__ methods, shared)
     from . import c06
@@ -121,7 +122,7 @@ def run(ctx) -> None:
     objmodel.tee_histories(ctx, "R01.14", depth=7 if getattr(ctx, "tier", "quick") == "thorough" else 5)
     ctx.floor("tee_operations", 1000)
     objmodel.merge_table(ctx, "R01.15")
-    ctx.floor("merge_table_cells_decided", 400)
+    ctx.floor("merge_table_cells_decided", 520)
     from . import c03
     from .common import Relabel
     ctx.rule("R01.18", "every tool accepts what the stdlib tool accepts: the adapter that turns an argument into an iterator does not "
@@ -129,7 +130,7 @@ def run(ctx) -> None:
     c03.r03_2(Relabel(ctx, "R01.18"))
     c03.r03_3(Relabel(ctx, "R01.18"))
     tooltables.fault_tables(ctx, "R01.19", items_only=True)
-    ctx.floor("tool_cells_decided", 120)
+    ctx.floor("tool_cells_decided", 340)
     ctx.floor("merge_cells", 6)
     ctx.floor("yield_sites", 18)
     ctx.floor("source_loops", 4)
